@@ -182,6 +182,20 @@ def _gen_list(r, wrapper_free, nv, shared_blocks=None, shared_wrapped=None):
 
 
 def _gen_vars(r):
+    if r.random() < 0.12:
+        # array-valued environment (what numerical users evaluate with): every operation
+        # returns a fresh array, and nothing may write into one it has handed out before
+        dt = r.choice(["float64", "float64", "int64"])
+        n = r.choice([1, 3])
+        out = {}
+        for v in ["a", "b", "c", "d"]:
+            if r.random() < 0.15:
+                out[v] = ["fr", r.randint(1, 9), 1]           # a scalar among arrays
+            else:
+                vals = [r.randint(0 if r.random() < 0.2 else 1, 9) for _ in range(n)]
+                out[v] = ["nparr", dt, vals if dt == "int64" else
+                          [x / r.choice([1, 2, 4]) for x in vals]]
+        return out
     # a variable is zero now and then: wrappers whose value is falsy (0) are still values;
     # more rarely one is not-a-number (min/max keep their first operand then)
     return {v: (["fr", 0, 1] if r.random() < 0.2 else
@@ -253,7 +267,8 @@ def generate(seed, tier):
             order = list(range(n))
             if r.random() < 0.5:
                 r.shuffle(order)
-            ops.append(["evalall", e, lid, order])
+            ops.append(["evalall", e, lid, order]
+                       + ([r.getrandbits(16)] if r.random() < 0.12 else []))
             if r.random() < 0.4:
                 e2 = {"ev": nextev, "cached": False, "vars": _gen_vars(r)}
                 nextev += 1
@@ -267,7 +282,10 @@ def generate(seed, tier):
         if fault_run and r.random() < 0.3:
             fault = {"kind": "env_raise", "site": "env:" + r.choice(["f", "g", "h"]),
                      "nth": r.randint(1, 4)}
-        ops.append(["eval", e, [what, lid, r.randrange(n)], fault])
+        op = ["eval", e, [what, lid, r.randrange(n)], fault]
+        if r.random() < 0.12:
+            op.append({"thread": True})
+        ops.append(op)
     for _ in range(r.randint(0, 3)):
         lid, n, wf = r.choice(lists)
         ops.append(["wrap", r.choice(["wrap_in_cse", "make_cse", "make_cse_array", "make_cse_mv",
@@ -333,7 +351,17 @@ def op_occurrences(c, acc):
 # }}}
 
 
-def _values_agree(a, b):
+def _values_agree(a, b, any_dtype=False):
+    import numpy as np
+    if isinstance(a, np.ndarray) or isinstance(b, np.ndarray):
+        if not (isinstance(a, np.ndarray) and isinstance(b, np.ndarray)):
+            return False
+        if a.shape != b.shape or (a.dtype != b.dtype and not any_dtype):
+            return False
+        with np.errstate(all="ignore"):
+            fa, fb = a.astype("float64"), b.astype("float64")
+            close = np.abs(fa - fb) <= 1e-9 * np.maximum(1.0, np.maximum(np.abs(fa), np.abs(fb)))
+            return bool(np.all((fa == fb) | (np.isnan(fa) & np.isnan(fb)) | close))
     if isinstance(a, float) and isinstance(b, float) and a != a and b != b:
         return True        # both not-a-number
     if isinstance(a, float) or isinstance(b, float):
@@ -384,7 +412,8 @@ def execute(scenario, open_sigs):
         pass
 
     def make_ctx(desc, sim, log):
-        ctx = {k: B.build(v) for k, v in desc["vars"].items()}
+        ctx = {k: (np.array(v[2], dtype=v[1]) if v[0] == "nparr" else B.build(v))
+               for k, v in desc["vars"].items()}
         for n, co in (("f", (3, 5, 7, 11)), ("g", (2, 9, 4, 6)), ("h", (8, 1, 3, 5))):
             ctx[n] = FakeFunction(n, sim, log, co)
 
@@ -418,7 +447,8 @@ def execute(scenario, open_sigs):
     def reference(desc, expr):
         ev = EvaluationMapper(make_ctx(desc, SimState(), []))
         try:
-            return ("ok", ev(expr))
+            with np.errstate(all="ignore"):
+                return ("ok", ev(expr))
         except Exception as ex:  # noqa: BLE001
             return ("exc", ex)
 
@@ -505,7 +535,7 @@ def execute(scenario, open_sigs):
         keys.sort()
         return util.digest_of(keys)[:10]
 
-    def do_eval(e, expr, desc_for_ref, orig_expr, fault, tag):
+    def do_eval(e, expr, desc_for_ref, orig_expr, fault, tag, in_thread=False):
         """Evaluate expr on evaluator e; compare with plain evaluation of orig_expr."""
         nonlocal wrappers_evaluated
         want = reference(e.desc, orig_expr)
@@ -514,15 +544,32 @@ def execute(scenario, open_sigs):
         if fault:
             e.sim.arm(fault["site"], fault["nth"])
         mark = obs.mark()
-        sys.setprofile(obs._prof)
+
+        def run():
+            sys.setprofile(obs._prof)
+            try:
+                with np.errstate(all="ignore"):
+                    return ("ok", e.obj(expr))
+            except InjectedFault as ex:
+                return ("fault", ex)
+            except Exception as ex:  # noqa: BLE001
+                return ("exc", ex)
+            finally:
+                sys.setprofile(None)
+
         obs.active = True
-        try:
-            got = ("ok", e.obj(expr))
-        except InjectedFault as ex:
-            got = ("fault", ex)
-        except Exception as ex:  # noqa: BLE001
-            got = ("exc", ex)
-        sys.setprofile(None)
+        if in_thread:
+            # the same long-lived evaluator, used from another caller thread (one caller at
+            # a time: the thread runs to completion before the history goes on)
+            import threading
+            box = []
+            th = threading.Thread(target=lambda: box.append(run()))
+            th.start()
+            th.join()
+            got = box[0]
+            probe("evals_from_another_thread")
+        else:
+            got = run()
         obs.stack.clear()
         e.sim.disarm()
         fired = e.sim.fired > fired0
@@ -571,7 +618,9 @@ def execute(scenario, open_sigs):
                        "orig": str(canon(orig_expr))[:600]}
                 same_number = _values_agree(float(got[1]), float(want[1])) \
                     if isinstance(got[1], (int, float, Fraction)) \
-                    and isinstance(want[1], (int, float, Fraction)) else False
+                    and isinstance(want[1], (int, float, Fraction)) else (
+                        isinstance(got[1], np.ndarray)
+                        and _values_agree(got[1], want[1], any_dtype=True))
                 if nv and same_number and kf(
                         "nested-typed-constant-conflation",
                         "x+4 and x+4.0 are merged by the tagger / share one CSE cache entry: "
@@ -645,7 +694,8 @@ def execute(scenario, open_sigs):
                 events.append([opi, "tag", op[1], [util.digest_of(canon(t))[:10] for t in L["tagged"]]])
                 continue
             if k == "eval":
-                _, desc, (what, lid, i), fault = op
+                _, desc, (what, lid, i), fault = op[:4]
+                knobs = op[4] if len(op) > 4 else {}
                 L = get_list(lid)
                 if L is None or not L["orig"]:
                     continue
@@ -658,13 +708,15 @@ def execute(scenario, open_sigs):
                     expr = L[what][i]
                 else:
                     expr = L["orig"][i]
-                got, comps = do_eval(e, expr, desc, L["orig"][i], fault, [what, lid, i])
+                got, comps = do_eval(e, expr, desc, L["orig"][i], fault, [what, lid, i],
+                                     in_thread=bool(knobs.get("thread")))
                 events.append([opi, "eval", desc["ev"], what, lid, i, got[0],
                                util.digest_of(canon(got[1]))[:10] if got[0] == "ok" else None,
                                len(comps)])
                 continue
             if k in ("evalall", "evalall2"):
-                _, desc, lid, order = op
+                _, desc, lid, order = op[:4]
+                tmask = op[4] if len(op) > 4 else 0
                 which = "tagged" if k == "evalall" else "tagged2"
                 L = get_list(lid)
                 if L is None or not L["orig"] or desc["ev"] in evs:
@@ -680,9 +732,9 @@ def execute(scenario, open_sigs):
                 for j in range(len(L["orig"])):
                     if j not in idxs:
                         idxs.append(j)
-                for j in idxs:
+                for pos, j in enumerate(idxs):
                     got, comps = do_eval(e, L[which][j], desc, L["orig"][j], None,
-                                         [which, lid, j])
+                                         [which, lid, j], in_thread=bool((tmask >> (pos % 16)) & 1))
                     if got[0] != "ok":
                         okall = False
                     allcomps += comps
